@@ -609,7 +609,7 @@ Proof.
   rewrite fread_shift. rewrite fread_exact. rewrite Nat.eqb_refl. cbn [negb]. rewrite Hp.
   rewrite app_assoc.
   pose proof (pa_shift (hdr_of b (length raw) ++ raw) rest count fuel 0%nat acc) as E.
-  rewrite app_length, Nat.add_0_r in E. rewrite <- E. do 2 f_equal. lia.
+  rewrite app_length, Nat.add_0_r in E. rewrite <- E. cbn [bind]. f_equal; lia.
 Qed.
 
 (* ---- non-vacuity: a mixed capture (Tx v1 8-PSK, Rx v1 NOPE, Rx v1 GMSK-AB, Rx v0) ---- *)
@@ -629,14 +629,17 @@ Proof. intros Hx. apply Forall_forall. intros y Hy. apply repeat_spec in Hy. lia
 
 Example ex_valid : Forall vmsg ex_ms.
 Proof.
-  repeat constructor; cbn [vmsg].
+  unfold ex_ms. apply Forall_cons; [|apply Forall_cons; [|apply Forall_cons; [|apply Forall_cons; [|apply Forall_nil]]]]; cbn [vmsg].
   - apply validate_tx_iff. vm_compute. reflexivity.
-  - apply validate_rx_iff. vm_compute. reflexivity.
-  - apply validate_rx_iff. vm_compute. reflexivity.
-  - unfold soft_ok, ex_rx. cbn [r_burst]. apply soft_repeat. lia.
-  - apply validate_rx_iff. vm_compute. reflexivity.
-  - unfold soft_ok, ex_rx0. cbn [r_burst]. apply soft_repeat. lia.
+  - split; [apply validate_rx_iff; vm_compute; reflexivity|exact I].
+  - split; [apply validate_rx_iff; vm_compute; reflexivity|]. unfold soft_ok, ex_rx. cbn [r_burst]. apply soft_repeat. lia.
+  - split; [apply validate_rx_iff; vm_compute; reflexivity|]. unfold soft_ok, ex_rx0. cbn [r_burst]. apply soft_repeat. lia.
 Qed.
 Example ex_cuts : length (file ex_ms) = 788%nat /\ complete ex_ms 787 = firstn 3 ex_ms /\ complete ex_ms 788 = ex_ms
                   /\ complete ex_ms 452 = [] /\ complete ex_ms 453 = [inl ex_tx].
 Proof. vm_compute. repeat split; reflexivity. Qed.
+
+Lemma record_format m : vmsg m ->
+  exists raw, (match m with inl t => gen_tx false t | inr r => gen_rx false r end) = Ok raw /\ (length raw <= 753)%nat /\
+              dump_msg m = Ok ([match m with inl _ => 1 | inr _ => 2 end; Z.of_nat (length raw) / 256; Z.of_nat (length raw) mod 256] ++ raw).
+Proof. intros H. destruct (rec_good m H) as [raw [A [B [C [D _]]]]]. exists raw. rewrite <- C. auto. Qed.
